@@ -33,7 +33,7 @@ ALL_OPS = {"listen", "connect", "accept", "write", "read", "shutdown", "close", 
 PURE = {
     "C06": ["PrefixInv", "EofOnlyAtEnd", "NoSpuriousAbort", "BoundedProgress"],
     "C16": ["CapsOk", "MssOk", "WindowOk", "UdpOk"],
-    "C13": ["AcceptOnce", "ConnectRule", "Reclaimed", "ConnectCompletes", "AcceptOffered"],
+    "C13": ["AcceptOnce", "ConnectRule", "Reclaimed", "ConnectCompletes", "AcceptOffered", "AcceptWoken"],
 }
 # ... and with the recorded family set aside (needs the ImplSpec state)
 TOLERANT = {
@@ -215,6 +215,12 @@ def random_configs(pid, tier, seed):
                           nconn=2, maxdrops=1, maxage=0, maxbytes=6, wmax=2, rmax=2, steps=160)]
         base.append(dict(c=consts(MaxP=1, Mss=2, SendCap=4, RecvCap=4, Backlog=1), mode="simclose", nconn=1, maxdrops=1, maxage=0,
                          maxbytes=6, wmax=3, rmax=3, steps=0, closeprob=20))
+        # constant delay of 2 rounds, no loss, one small record per round for > T*(retx_max+1) rounds
+        base.append(dict(c=consts(MaxP=1, Mss=2, SendCap=16, RecvCap=16, Backlog=1, RetxT=3, RetxMax=5, PremD=0, PremAge=2),
+                         mode="pipeline", nconn=1, maxdrops=0, maxage=2, maxbytes=200, wmax=2, rmax=8, steps=0))
+        # peer's data + FIN received but unread, then the TCB is aborted, only then the application reads
+        base.append(dict(c=consts(MaxP=1, Mss=4, SendCap=8, RecvCap=8, Backlog=1, RetxT=2, RetxMax=1, PremD=0), mode="abortread",
+                         nconn=1, maxdrops=99, maxage=0, maxbytes=8, wmax=4, rmax=8, steps=0))
     elif pid == "C16":
         base = [dict(c=consts(MaxP=2, Mss=4, SendCap=6, RecvCap=5, Backlog=2), nconn=2, maxdrops=1, maxage=1, maxbytes=24, wmax=9, rmax=3, steps=150),
                 dict(c=consts(MaxP=2, Mss=7, SendCap=3, RecvCap=9, Backlog=2), nconn=2, maxdrops=0, maxage=2, maxbytes=24, wmax=9, rmax=9, steps=150)]
@@ -236,17 +242,26 @@ def random_configs(pid, tier, seed):
         # receive cap below one MSS, first burst above the cap, pure ACKs lost, idle reader
         base.append(dict(c=consts(MaxP=1, Mss=4, SendCap=8, RecvCap=3, Backlog=1, RetxT=3, RetxMax=3, PremD=1), mode="overlap", nconn=1,
                          maxdrops=3, maxage=0, maxbytes=8, wmax=8, rmax=2, steps=0))
+        # the connector host also holds a loopback connection (created first) with pending data
+        base.append(dict(c=consts(MaxP=2, Mss=4, SendCap=16, RecvCap=16, Backlog=1), mode="lomss", nconn=1, maxdrops=0, maxage=0,
+                         maxbytes=100, wmax=12, rmax=16, steps=0, prop_only=1))
     if pid == "C13":
         base.append(dict(c=consts(MaxP=1, Mss=2, SendCap=4, RecvCap=4, Backlog=1, RetxT=2, RetxMax=2, PremD=1), mode="simclose", nconn=1,
                          maxdrops=1, maxage=0, maxbytes=4, wmax=2, rmax=2, steps=0, closeprob=80, wild=2))
         base.append(dict(c=consts(MaxP=1, Mss=2, SendCap=4, RecvCap=4, Backlog=1, RetxT=2, RetxMax=2, PremD=1), mode="hsackloss", nconn=1,
                          maxdrops=1, maxage=0, maxbytes=2, wmax=2, rmax=2, steps=0))
+        # more overlapping handshakes than the backlog, partly full accept queue, no accept until the end
+        base.append(dict(c=consts(MaxP=4, Mss=2, SendCap=4, RecvCap=4, Backlog=2, RetxT=3, RetxMax=2, PremD=0), mode="backlog", nconn=4,
+                         maxdrops=0, maxage=0, maxbytes=2, wmax=2, rmax=2, steps=0))
+        # accept futures with their own wakers: earlier ones polled once and dropped, a later one parked
+        base.append(dict(c=consts(MaxP=2, Mss=2, SendCap=4, RecvCap=4, Backlog=2, RetxT=2, RetxMax=1, PremD=0), mode="acceptwake", nconn=2,
+                         maxdrops=0, maxage=0, maxbytes=2, wmax=2, rmax=2, steps=0))
         base.append(dict(c=consts(MaxP=2, Mss=2, SendCap=4, RecvCap=4, Backlog=2, RetxT=3, RetxMax=2, PremD=0, PremAge=1), mode="lsndrop",
                          nconn=2, maxdrops=0, maxage=1, maxbytes=2, wmax=2, rmax=2, steps=0, wild=2))
     out = []
     for i, b in enumerate(base):
         b = dict(b)
-        b["runs"] = runs * (3 if b.get("mode") else 1)
+        b["runs"] = runs * (2 if b.get("mode") else 1)
         b["seed"] = seed * 131 + i
         out.append(b)
     return out
@@ -330,11 +345,17 @@ def stop_index(r):
     return max(r.depth - 1, 1) if r.depth else 1
 
 
-def judge_trace(ck, pid, path, c, tag, payload, known_state):
+def judge_trace(ck, pid, path, c, tag, payload, known_state, impl=True):
     """Verdict + fidelity for one recorded trace file (possibly many runs).
-    Returns (prop_ok, drift)."""
+    Returns (prop_ok, drift). impl=False: scenario outside the ImplSpec (loopback sockets), verdict only."""
     pr = run_prop_trace(pid, path, c, tag)
     ck.add_tlc(pr, f"trace_prop_{tag}")
+    if not impl:
+        if rejected(pr):
+            ck.violation(dict(payload, violated_clause=pr.violated, unmatched=pr.unmatched,
+                              tlc=vlib.counterexample_text(pr, 2500)))
+            return False, 0
+        return True, 0
     ir = run_impl_trace(pid, path, c, tag)
     ck.add_tlc(ir, f"trace_impl_{tag}")
     if not rejected(pr):
@@ -512,10 +533,10 @@ def run(pid, tier, seed, replay=None):
     for i, rc in enumerate(rcs):
         c = rc["c"]
         tpath = os.path.join(w, f"random_{i}.ndjson")
-        args = ["random"] + [f"{k}={v}" for k, v in rc.items() if k != "c"] + harness_args(c)
+        args = ["random"] + [f"{k}={v}" for k, v in rc.items() if k not in ("c", "prop_only")] + harness_args(c)
         out = vlib.run_driver("ktcp", args + [f"out={tpath}"])
         payload = {"kind": "random", "property": pid, "args": args, "consts": jsonable(c)}
-        okp, drift = judge_trace(ck, pid, tpath, c, f"{pid}_rnd{i}", payload, known_state)
+        okp, drift = judge_trace(ck, pid, tpath, c, f"{pid}_rnd{i}", payload, known_state, impl=not rc.get("prop_only"))
         ck.traces += rc["runs"]
         ck.evaluations += count_lines(tpath)
         ck.nontrivial += rc["runs"]
